@@ -1,5 +1,6 @@
 import Zrnt.Beacon.Impl.BlockM
 import Proofs.Lemmas.BeaconBlock
+import Proofs.Lemmas.Merkle
 /-!
 # Refinement lemmas: the code-shaped model `M` of block processing (`Zrnt/Beacon/Impl/BlockM.lean`) equals the
 specification `S` (`Zrnt/Beacon/Spec/BlockOps.lean`), operation by operation: accept/reject AND post-state.
@@ -351,5 +352,119 @@ theorem proposer_frame (cfg : Config) (s s' : State) (h : SameDuties cfg s s') :
   unfold Block.get_beacon_proposer_index
   simp only [hcur, active_indices_frame cfg s s' h, h.1, hseed,
     compute_proposer_index_frame cfg s s' (fun i v v' h1 h2 => (h.2.2.2 i v v' h1 h2).1) h.2.2.1]
+
+
+/-! ### (b) deposits -/
+
+theorem bytes_beq (a b : ByteArray) : (a == b) = true ↔ a = b := by
+  cases a; cases b
+  show (ByteArray.beq _ _) = true ↔ _
+  simp [ByteArray.beq]
+
+theorem contains_iff_mem (l : List Bytes) (x : Bytes) : l.contains x = true ↔ x ∈ l := by
+  induction l with
+  | nil => simp
+  | cons a t ih =>
+    simp only [List.contains_cons, Bool.or_eq_true, ih, List.mem_cons, bytes_beq]
+
+theorem merkle_eq (leaf : Bytes) (branch : List Bytes) (depth index : Nat) (root : Bytes) (h : depth ≤ branch.length) :
+    verifyMerkleBranch leaf branch depth index root = toRes (Block.is_valid_merkle_branch leaf branch depth index root) := by
+  unfold verifyMerkleBranch Block.is_valid_merkle_branch Zrnt.Util.Merkle.verifyMerkleBranch
+  rw [Zrnt.Proofs.Merkle.fold_eq_spec _ branch index depth 0 leaf (by omega)]
+  have : ¬ branch.length < depth := by omega
+  simp [this, toRes_bind, toRes_ite, pure, Except.pure, toRes]
+
+theorem addValidator_eq (cfg : Config) (s : State) (pk wc : Bytes) (amount : Nat) (hebi : cfg.EFFECTIVE_BALANCE_INCREMENT ≠ 0) :
+    addValidator cfg s pk wc amount = toRes (Block.add_validator_to_registry cfg s pk wc amount) := by
+  unfold addValidator Block.add_validator_to_registry Block.get_validator_from_deposit
+  have hmin : (if amount - amount % cfg.EFFECTIVE_BALANCE_INCREMENT > cfg.MAX_EFFECTIVE_BALANCE then cfg.MAX_EFFECTIVE_BALANCE
+      else amount - amount % cfg.EFFECTIVE_BALANCE_INCREMENT) = min (amount - amount % cfg.EFFECTIVE_BALANCE_INCREMENT) cfg.MAX_EFFECTIVE_BALANCE := by
+    split <;> omega
+  simp only [hebi, if_false, toRes_bind, toRes_require, toRes_pure, res_bind_ok, guard_bind, hmin, toRes_ite]
+  by_cases hlim : s.validators.length < cfg.VALIDATOR_REGISTRY_LIMIT
+  · simp only [hlim, decide_true, if_true]
+    cases s.fork <;> rfl
+  · simp [hlim]
+
+theorem addValidator_appends (cfg : Config) (s s2 : State) (pk wc : Bytes) (amount : Nat)
+    (h : toRes (Block.add_validator_to_registry cfg s pk wc amount) = Res.ok s2) :
+    ∃ v, s2.validators = s.validators ++ [v] := by
+  unfold Block.add_validator_to_registry Block.get_validator_from_deposit at h
+  simp only [toRes_bind, toRes_require, guard_bind, toRes_ite, toRes_pure, toRes_invalid, res_bind_ok] at h
+  split at h
+  · split at h
+    · cases h
+    · simp only [res_bind_ok] at h
+      split at h <;> (cases h; exact ⟨_, rfl⟩)
+  · cases h
+
+/-- the pubkey cache answers as the registry does -/
+def PubkeyOK (s : State) (ctx : Ctx) : Prop :=
+  ∀ pk, ctx.pubkeyIndex pk = (let i := (s.validators.map (·.pubkey)).findIdx (· = pk); if i < s.validators.length then some i else none)
+
+/-- (b) `ProcessDeposit` = `process_deposit` (state component), for a pubkey cache that answers as the registry does
+(the C16 invariant `lookup_refines_history`: index below the registry length ⇔ pubkey in the registry). -/
+theorem deposit_eq (cfg : Config) (ctx : Ctx) (s : State) (dep : Deposit)
+    (hpk : PubkeyOK s ctx) (hproof : dep.proof.length = Block.DEPOSIT_CONTRACT_TREE_DEPTH + 1)
+    (hebi : cfg.EFFECTIVE_BALANCE_INCREMENT ≠ 0) (hidx : s.eth1_deposit_index + 1 < 2 ^ 64)
+    (hbal : ∀ b ∈ s.balances, b + dep.data.amount < 2 ^ 64) :
+    (processDeposit cfg ctx s dep >>= fun r => Res.ok r.2) = toRes (Block.process_deposit cfg s dep) := by
+  unfold processDeposit Block.process_deposit
+  rw [merkle_eq _ _ _ _ _ (by omega)]
+  simp only [toRes_bind, toRes_require, res_bind_ok, u64_ok _ _ hidx, toRes_ok, w64_id _ hidx]
+  cases hm : toRes (Block.is_valid_merkle_branch dep.data_root dep.proof (Block.DEPOSIT_CONTRACT_TREE_DEPTH + 1) s.eth1_deposit_index s.eth1_data.deposit_root) with
+  | err => rfl
+  | panic => rfl
+  | outOfFuel => rfl
+  | ok okb =>
+    simp only [res_bind_ok, guard_bind]
+    cases okb with
+    | false => rfl
+    | true =>
+      simp only [if_true]
+      unfold Block.apply_deposit
+      generalize hs1 : ({ s with eth1_deposit_index := s.eth1_deposit_index + 1 } : State) = s1
+      have hv1 : s1.validators = s.validators := by rw [← hs1]
+      have hb1 : s1.balances = s.balances := by rw [← hs1]
+      rw [hv1, hpk dep.data.pubkey]
+      simp only []
+      by_cases hin : (s.validators.map (·.pubkey)).contains dep.data.pubkey = true
+      · have hlt : (s.validators.map (·.pubkey)).findIdx (· = dep.data.pubkey) < s.validators.length := by
+          have hex : ∃ x ∈ s.validators.map (·.pubkey), decide (x = dep.data.pubkey) = true := by
+            have : dep.data.pubkey ∈ s.validators.map (·.pubkey) := (contains_iff_mem _ _).mp hin
+            exact ⟨_, this, by simp⟩
+          have := List.findIdx_lt_length_of_exists hex
+          simpa using this
+        simp only [hlt, if_true, hin, Bool.not_true, Bool.false_eq_true, if_false]
+        rw [increaseBalance_eq s1 _ _ (by
+          intro b hb; rw [hb1] at hb; exact hbal b (List.mem_of_getElem? hb))]
+        cases toRes (increase_balance s1 _ dep.data.amount) <;> rfl
+      · have hnl : ¬ (s.validators.map (·.pubkey)).findIdx (· = dep.data.pubkey) < s.validators.length := by
+          intro hlt
+          apply hin
+          have : (s.validators.map (·.pubkey)).findIdx (· = dep.data.pubkey) < (s.validators.map (·.pubkey)).length := by simpa using hlt
+          have h1 := List.findIdx_getElem (w := this)
+          have h2 := List.getElem_mem this
+          have h3 : (s.validators.map (·.pubkey))[(s.validators.map (·.pubkey)).findIdx (· = dep.data.pubkey)] = dep.data.pubkey := by
+            simpa using h1
+          rw [h3] at h2
+          exact (contains_iff_mem _ _).mpr h2
+        have hin' : (s.validators.map (·.pubkey)).contains dep.data.pubkey = false := by simpa using hin
+        simp only [hnl, if_false, hin', Bool.not_false, if_true]
+        by_cases hsig : dep.sig_ok = true
+        · simp only [hsig, Bool.not_true, Bool.false_eq_true, if_false, if_true]
+          rw [addValidator_eq cfg s1 _ _ _ hebi]
+          cases hadd : toRes (Block.add_validator_to_registry cfg s1 dep.data.pubkey dep.data.withdrawal_credentials dep.data.amount) with
+          | ok s2 =>
+            obtain ⟨v, hv⟩ := addValidator_appends cfg s1 s2 _ _ _ hadd
+            have hget : s2.validators[s.validators.length]? = some v := by
+              rw [hv, hv1]; simp
+            simp only [res_bind_ok, rget, hget]
+            split <;> rfl
+          | err => rfl
+          | panic => rfl
+          | outOfFuel => rfl
+        · have : dep.sig_ok = false := by simpa using hsig
+          simp [this]
 
 end Zrnt.Proofs.BlockM
